@@ -1,5 +1,8 @@
 enum_note = "Pure input enumeration on the real functions in a single thread; no scheduler involved."
 CHECKS = {
+ 'C17': dict(tech='bounded exhaustive enumeration of operation sequences from seeded non-initial states on the real stack with a structural oracle over the storage roots',
+   text='From seeded states with limit-2, limit-1 and limit entries in the active directory, for 1 and 2 roots and limits exercising the clamp: every history of depth 4 (quick) / 5 (thorough) over Set-new in two shuffle orders, overwrite, delete, GC, reopen and root-restricted probes; after every step every file sits directly in <root>/<uuid>/ and no directory exceeds the limit; at the end every root accepts a write when it alone has space and every directory with room receives a write for some shuffle order.',
+   note='Operations one at a time (the statement\'s restriction); free space comes from the disk shim table, shuffle orders are dictated by the harness; single client under the controlled scheduler, in-memory Badger engine.', ref='C17'),
  'C18': dict(tech='bounded exhaustive enumeration of version lists, probes, horizons and list operation sequences on the real model/core structures against a linear-scan reference',
    text='All 4096 subsets of a 12-element sequence domain x all probe points x all horizons (pure lookups and the production collect pattern), all operation sequences of depth 8 (quick) / 10 (thorough) over push, pop-front, pop-back, collect with every lookup compared after every step, with and without the search array, plus deterministic long lists.',
    note=enum_note + " The 'random long lists' part of the quantifier is replaced by deterministic long lists (sampling is a different family).", ref='C18'),
